@@ -4,6 +4,29 @@ import vlib
 from props import check, cfg, MODULE_OF, HARNESS_PKGS
 from vlib import tlc, build_harness, replay_tour, drive_and_validate, scratch
 
+import threading
+
+
+class _AtomicSeq:
+    """vlib.tlc numbers its runs with `_tlc_seq[0] += 1` followed by a separate read; validate_trace calls it from several
+    threads, and under load two shards then share one metadir and delete each other's files (seen as FileNotFoundException in
+    TLC).  This drop-in makes the increment atomic and the following read thread-local."""
+
+    def __init__(self, start):
+        self._n, self._lock, self._local = start, threading.Lock(), threading.local()
+
+    def __getitem__(self, i):
+        return getattr(self._local, "v", self._n)
+
+    def __setitem__(self, i, v):
+        with self._lock:
+            self._n += 1
+            self._local.v = self._n
+
+
+if isinstance(getattr(vlib, "_tlc_seq", None), list):
+    vlib._tlc_seq = _AtomicSeq(vlib._tlc_seq[0])
+
 MODULE_OF.update(C23="wkt", C43="timeconv", C44="fieldmask", C45="structval")
 HARNESS_PKGS.update(C23=("wkt",), C43=("wkt",), C44=("wkt",), C45=("wkt",))
 
@@ -149,6 +172,19 @@ def c23(res, tier, seed):
     replay_tour(res, b, "wkt", tour2, key=tkey)
     n = 5000 if quick else 200000
     drive_and_validate(res, b, "wkt", "Trace_Wkt", seed, n, key=tkey)
+    res.rule = ("tour T: every Duration string up to the length bound over {-+.019s space}, the edit-distance-1 neighbourhoods (insert/"
+                "replace/delete over digits and -+.,:TtZzs space) of boundary Duration literals and of RFC 3339 seeds (range limits, leap "
+                "days, fraction lengths 0..10, offsets), and corner (seconds, nanos) pairs for marshaling, each with the specified verdict, "
+                "value and canonical text; tour F: FieldMask strings, wrapper range limits, nested Struct/Value/ListValue, Any member "
+                "sequences and URL classes, cross-type parsing, each with the specified abstract JSON / message; distinct = (op, verdict, "
+                "length, separator set) resp. (op, type, verdict, size, top-level kind) classes; driver: structured + damaged random "
+                "Duration/Timestamp strings, random (seconds, nanos) pairs, random nested messages and JSON documents")
+    res.assumptions.append("JSON text <-> abstract JSON (numbers by value, members sorted) is done by the harness with encoding/json and strconv; "
+                           "non-integer number literals are uninterpreted tokens that must be preserved (DESIGN 6)")
+    res.assumptions.append("the RFC 3339 leap second ':60' and lower-case 't'/'z' are outside the specified grammar (protobuf-go rejects them; "
+                           "the property statement is silent)")
+    res.notes.append("base64 leniency on input (URL alphabet, missing padding) and JSON number spellings other than canonical integers "
+                     "are the business of C22 and are not asserted here")
 
 
 # ============================================================================ C45
